@@ -345,6 +345,31 @@ func ruleC20Codec(c *ctx.Ctx, r *core.Reporter) {
 			r.Check(rebuilt[f], "codec:rebuilt:"+f, c.Pos(uf.Pos()), fmt.Sprintf("ast.File.%s is cleared before encoding and reconstructed after decoding", f))
 		}
 		r.Check(strings.Contains(nodeString(c, rd.Body), "unpackFile(f)"), "codec:unpack-called", c.Pos(rd.Pos()), "Read reconstructs every decoded file")
+		// the reconstruction walk must not prune: comments hang below import specs, fields, declarations ...
+		prunes := ""
+		ast.Inspect(uf.Body, func(n ast.Node) bool {
+			fl, ok := n.(*ast.FuncLit)
+			if !ok {
+				return true
+			}
+			ast.Inspect(fl.Body, func(m ast.Node) bool {
+				if rs, isRet := m.(*ast.ReturnStmt); isRet && len(rs.Results) == 1 && exprStr(rs.Results[0]) != "true" {
+					// pruning below a comment group (or comment) is harmless: nothing collected lives there
+					harmless := false
+					for _, cd := range enclosingConds(fl.Body, rs.Pos()) {
+						if cd == "case *ast.CommentGroup" || cd == "case *ast.Comment" || strings.HasPrefix(cd, "n.(*ast.CommentGroup)") {
+							harmless = true
+						}
+					}
+					if !harmless {
+						prunes = c.Pos(rs.Pos())
+					}
+				}
+				return true
+			})
+			return false
+		})
+		r.Check(prunes == "", "codec:rebuild-walk-never-prunes", c.Pos(uf.Pos()), "the walk that re-collects imports and comment groups visits the whole file (a pruned subtree loses the comments below it, e.g. a //go:linkname or doc comment on an import spec) "+prunes)
 	}
 	// caller
 	if fd := c.FuncDecl("build", "Session.loadPackages"); fd != nil || true {
